@@ -97,8 +97,8 @@ impl vstd::std_specs::cmp::PartialEqSpecImpl for CallParenType {
 """),
         Item(CTX, "struct", "Context"),
         Fn(CTX, "config", impl_of="Context", mode="stub", contract="ensures r == self.config,"),
-        Fn(CTX, "create_indent_trivia", mode="stub", contract="ensures is_indent_tok(r),"),
-        Fn(CTX, "create_newline_trivia", mode="stub", contract="ensures is_newline_tok(r),"),
+        Fn(CTX, "create_indent_trivia", mode="stub", proved_in="ctx", contract="ensures is_indent_tok(r), token_type_of(r) is Whitespace,"),
+        Fn(CTX, "create_newline_trivia", mode="stub", proved_in="ctx", contract="ensures is_newline_tok(r), token_type_of(r) is Whitespace,"),
         Item(SH, "struct", "Indent"), Item(SH, "struct", "Shape"),
         *shape_stubs(), SHAPE_ADD,
         Item(TRV, "enum", "FormatTriviaType", keep_derives=()),
